@@ -526,10 +526,17 @@ impl TryFrom<NaiveDateTime> for IntervalDT {
 
     #[inline]
     fn try_from(dt: NaiveDateTime) -> Result<Self> {
-        if dt.negative {
-            Ok(IntervalDT::try_from_dhms(dt.day, dt.hour, dt.minute, dt.sec, dt.usec)?.negate())
+        // Fractional seconds rounded up to a whole second carry into the higher fields.
+        let interval = if dt.usec > USECONDS_MAX {
+            IntervalDT::try_from_dhms(dt.day, dt.hour, dt.minute, dt.sec, 0)?
+                .add_interval_dt(IntervalDT::try_from_usecs(dt.usec as i64)?)?
         } else {
-            IntervalDT::try_from_dhms(dt.day, dt.hour, dt.minute, dt.sec, dt.usec)
+            IntervalDT::try_from_dhms(dt.day, dt.hour, dt.minute, dt.sec, dt.usec)?
+        };
+        if dt.negative {
+            Ok(interval.negate())
+        } else {
+            Ok(interval)
         }
     }
 }
